@@ -1,18 +1,9 @@
-//go:build !verif
+//go:build verif
 
-// Copyright 2024 Kelvin Clement Mwinuka
-//
-// Licensed under the Apache License, Version 2.0 (the "License");
-// you may not use this file except in compliance with the License.
-// You may obtain a copy of the License at
-//
-//      http://www.apache.org/licenses/LICENSE-2.0
-//
-// Unless required by applicable law or agreed to in writing, software
-// distributed under the License is distributed on an "AS IS" BASIS,
-// WITHOUT WARRANTIES OR CONDITIONS OF ANY KIND, either express or implied.
-// See the License for the specific language governing permissions and
-// limitations under the License.
+// Twin of memberlist.go for the simulation harness: same exported API and the same
+// Forward* functions, but instead of creating a hashicorp memberlist on real sockets the
+// node's REAL delegate (delegate.go, broadcast.go - unchanged) and its real broadcast queue
+// are registered with the harness through verifhook.JoinGossip.
 
 package memberlist
 
@@ -20,15 +11,14 @@ import (
 	"context"
 	"crypto/md5"
 	"fmt"
-	"github.com/echovault/sugardb/internal"
-	"github.com/echovault/sugardb/internal/config"
-	"log"
 	"sync"
 	"time"
 
+	"github.com/echovault/sugardb/internal"
+	"github.com/echovault/sugardb/internal/config"
+	"github.com/echovault/sugardb/verifhook"
 	"github.com/hashicorp/memberlist"
 	"github.com/hashicorp/raft"
-	"github.com/sethvargo/go-retry"
 )
 
 type NodeMeta struct {
@@ -52,7 +42,6 @@ type MemberList struct {
 	broadcastQueue *memberlist.TransmitLimitedQueue
 	noOfNodesMut   sync.RWMutex
 	noOfNodes      int
-	memberList     *memberlist.Memberlist
 }
 
 func NewMemberList(opts Opts) *MemberList {
@@ -65,12 +54,7 @@ func NewMemberList(opts Opts) *MemberList {
 }
 
 func (m *MemberList) MemberListInit(ctx context.Context) {
-	cfg := memberlist.DefaultWANConfig()
-	cfg.RequireNodeNames = true
-	cfg.Name = m.options.Config.ServerID
-	cfg.BindAddr = m.options.Config.BindAddr
-	cfg.BindPort = int(m.options.Config.DiscoveryPort)
-	cfg.Delegate = NewDelegate(DelegateOpts{
+	delegate := NewDelegate(DelegateOpts{
 		config:         m.options.Config,
 		broadcastQueue: m.broadcastQueue,
 		addVoter:       m.options.AddVoter,
@@ -78,64 +62,23 @@ func (m *MemberList) MemberListInit(ctx context.Context) {
 		applyMutate:    m.options.ApplyMutate,
 		applyDeleteKey: m.options.ApplyDeleteKey,
 	})
-	cfg.Events = NewEventDelegate(EventDelegateOpts{
-		incrementNodes: func() {
-			m.noOfNodesMut.Lock()
-			defer m.noOfNodesMut.Unlock()
-			m.noOfNodes += 1
-		},
-		decrementNodes: func() {
-			m.noOfNodesMut.Lock()
-			defer m.noOfNodesMut.Unlock()
-			m.noOfNodes -= 1
-		},
-		removeRaftServer: m.options.RemoveRaftServer,
-	})
-
 	m.broadcastQueue.RetransmitMult = 1
 	m.broadcastQueue.NumNodes = func() int {
 		m.noOfNodesMut.RLock()
 		defer m.noOfNodesMut.RUnlock()
-		noOfNodes := m.noOfNodes
-		return noOfNodes
+		return m.noOfNodes
 	}
-
-	list, err := memberlist.Create(cfg)
-	m.memberList = list
-
-	if err != nil {
-		log.Fatal(err)
+	if verifhook.JoinGossip == nil {
+		panic("verif build: no simulation harness installed (verifhook.JoinGossip is nil)")
 	}
-
-	if m.options.Config.JoinAddr != "" {
-		backoffPolicy := internal.RetryBackoff(retry.NewFibonacci(1*time.Second), 5, 200*time.Millisecond, 0, 0)
-
-		err = retry.Do(ctx, backoffPolicy, func(ctx context.Context) error {
-			_, err = list.Join([]string{m.options.Config.JoinAddr})
-			if err != nil {
-				return retry.RetryableError(err)
-			}
-			return nil
-		})
-
-		if err != nil {
-			log.Fatal(err)
-		}
-
-		m.broadcastRaftAddress()
-	}
+	verifhook.JoinGossip(m.options.Config.ServerID, delegate, m.broadcastQueue)
 }
 
-func (m *MemberList) broadcastRaftAddress() {
-	msg := BroadcastMessage{
-		Action: "RaftJoin",
-		NodeMeta: NodeMeta{
-			ServerID: raft.ServerID(m.options.Config.ServerID),
-			RaftAddr: raft.ServerAddress(fmt.Sprintf("%s:%d",
-				m.options.Config.RaftBindAddr, m.options.Config.RaftBindPort)),
-		},
-	}
-	m.broadcastQueue.QueueBroadcast(&msg)
+// SetNumNodes lets the harness tell the broadcast queue how many members there are.
+func (m *MemberList) SetNumNodes(n int) {
+	m.noOfNodesMut.Lock()
+	defer m.noOfNodesMut.Unlock()
+	m.noOfNodes = n
 }
 
 // The ForwardDeleteKey function is only called by non-leaders.
@@ -173,18 +116,7 @@ func (m *MemberList) ForwardDataMutation(ctx context.Context, cmd []byte) {
 }
 
 func (m *MemberList) MemberListShutdown() {
-	// Gracefully leave memberlist cluster
-	err := m.memberList.Leave(500 * time.Millisecond)
-	if err != nil {
-		log.Printf("memberlist leave: %v\n", err)
-		return
+	if verifhook.LeaveGossip != nil {
+		verifhook.LeaveGossip(m.options.Config.ServerID)
 	}
-
-	err = m.memberList.Shutdown()
-	if err != nil {
-		log.Printf("memberlist shutdown: %v\n", err)
-		return
-	}
-
-	log.Println("successfully shutdown memberlist")
 }
